@@ -146,6 +146,7 @@ static const char *MOD_HX =
 /* ------------------------------------------------------------------------------------------------------------- */
 static int notfreed_warn;
 static int have_lsan;
+static int heap_grew;              /* the heap in use grew over the call of the last case (before the health workload) */
 
 int __lsan_do_recoverable_leak_check(void) __attribute__((weak));
 void __lsan_ignore_object(const void *p) __attribute__((weak));
@@ -724,6 +725,7 @@ run_case(struct shard *S, struct vcase *c, int nf)
     struct health H;
     char why[128];
     uint32_t dict0, dict1;
+    size_t heap0, heap1;
 
     if (!strcmp(entry, "yang") || !strcmp(entry, "yin")) {
         /* no data tree may be alive while the set of modules changes (libyang rule: loading a module may recompile the
@@ -734,6 +736,7 @@ run_case(struct shard *S, struct vcase *c, int nf)
     sig0 = ctx_sig(ctx, &nmod0);
     ly_err_clean(ctx, NULL);
     dict0 = ctx->dict.hash_tab->used;
+    heap0 = __sanitizer_get_current_allocated_bytes ? __sanitizer_get_current_allocated_bytes() : 0;
     printf("%s ", entry);
 
     if ((!strcmp(entry, "yang") || !strcmp(entry, "yin")) && (nf >= 3)) {
@@ -1014,6 +1017,8 @@ run_case(struct shard *S, struct vcase *c, int nf)
     if (!(module_entry && !rc) && (dict1 != dict0)) {
         printf("!dict-strings-left=%d ", (int)(dict1 - dict0));
     }
+    heap1 = __sanitizer_get_current_allocated_bytes ? __sanitizer_get_current_allocated_bytes() : 1;
+    heap_grew = (heap1 > heap0) && !(module_entry && !rc);
 
     /* the module list must be unchanged unless a module was loaded successfully */
     sig1 = ctx_sig(ctx, &nmod1);
@@ -1047,7 +1052,6 @@ main(void)
     struct shard S;
     struct sigaction sa;
     int limit = getenv("RB_CPU_LIMIT") ? atoi(getenv("RB_CPU_LIMIT")) : 10;
-    size_t heap0 = 0;
     unsigned ncase = 0;
     int private_ctx = 0;
 
@@ -1074,11 +1078,7 @@ main(void)
         }
         cur_entry = c.f[1];
         cpu_limit(limit);
-        /* the leak checker stops the world and costs ~0.1 s: it runs only when the heap in use has grown over the case
-         * (allocator statistics of the sanitizer run time; growth that is no leak, e.g. a resized hash table, only costs
-         * the check) and after every 64th case */
-        heap0 = (have_lsan && __sanitizer_get_current_allocated_bytes) ? __sanitizer_get_current_allocated_bytes() : 0;
-
+        heap_grew = 1;
         private_ctx = extra_hex ? 1 : 0;
         if (extra_hex) {
             /* private context: fixed set + the given module */
@@ -1107,12 +1107,11 @@ main(void)
             run_case(&S, &c, nf);
         }
         cpu_limit(0);
-        if (have_lsan) {
-            size_t heap1 = __sanitizer_get_current_allocated_bytes ? __sanitizer_get_current_allocated_bytes() : 1;
-
-            if ((heap1 > heap0) || !(++ncase % 64)) {
-                leak_check();
-            }
+        /* the leak checker stops the world and costs ~0.1 s: it runs only when the heap in use has grown over the call
+         * (allocator statistics of the sanitizer run time; growth that is no leak, e.g. a resized hash table, only costs
+         * the check) and after every 64th case */
+        if (have_lsan && (heap_grew || !(++ncase % 64))) {
+            leak_check();
         }
         VEND();
     }
